@@ -55,6 +55,13 @@ FmtWhy(r) ==
        \cup (IF rd.ok /\ T!View(rd.obj) = T!View(o) THEN {} ELSE {"txt-read"})
             \* ... and so does the real reader (C18)
        \cup (IF r.eq = 1 THEN {} ELSE {"txt-roundtrip"})
+  ELSE IF r.kind = "txtread" THEN
+         \* a text of the specification's writer through the real reader: it builds what TxtRead builds,
+         \* and the real writer gives the same text back
+         LET rd == T!TxtRead(r.input) IN
+            (IF (r.deser = "accept") = rd.ok THEN {} ELSE {"txt-accept"})
+       \cup (IF r.deser = "accept" /\ rd.ok /\ T!View(TxtObjOfJson(r.view)) # T!View(rd.obj) THEN {"txt-obj"} ELSE {})
+       \cup (IF r.deser = "accept" /\ r.again # r.input THEN {"txt-rewritten"} ELSE {})
   ELSE IF r.kind = "written" THEN
          \* the real writer's bytes are a serialization of the object in the sense of the specification ...
          (IF WrittenForView(r.input, v) THEN {} ELSE {"fmt-written"})
